@@ -445,8 +445,8 @@ func Run(cfg Config, bodies []func(t *Task)) *Result {
 				// seconds. Anything else is blocked on something outside the simulator.
 				for slice := 0; slice < 100; slice++ {
 					st := goroutineState(getGoid(t))
-					if st != "running" && st != "runnable" {
-						break
+					if st != "running" && st != "runnable" && st != "syscall" {
+						break // (a task inside a file-system call of the static engine is in "syscall")
 					}
 					timer.Reset(tDetect)
 					select {
